@@ -1130,6 +1130,27 @@ UtilOK1(e) ==
           /\ \A i \in 2..Len(e.idx) : e.idx[i][1] # 0 => e.idx[i][2] = e.idx[i - 1][1]
     \* AddPathsWithScaleFunc / ExecuteWithScaleFunc with the library's own scaling functions are AddPaths / ExecuteOC
     [] e.fn = "EngineDScaleFunc" -> e.resSet = e.resSet2
+    \* the orientation reference of polygon offsetting: the first path of non-zero area that owns the lowest vertex
+    \* (greatest y, then smallest x) among the paths of non-zero area; n3 its 0-based index (-1: none), b = its area
+    \* is negative, flag = ClipperOffset.CheckPathsReversed() = (n3 >= 0 /\ b)
+    [] e.fn = "LowestPathInfo" ->
+          LET S == e.set
+              NZ == {k \in 1..Len(S) : Area2(S[k]) # 0}
+              Lower(p, q) == p[2] > q[2] \/ (p[2] = q[2] /\ p[1] < q[1])
+              Owns(k) == \E i \in 1..Len(S[k]) : \A m \in NZ : \A j \in 1..Len(S[m]) : ~Lower(S[m][j], S[k][i])
+              Own == {k \in NZ : Owns(k)} IN
+          IF Own = {} THEN e.n3 = -1 /\ ~e.flag
+          ELSE LET k == CHOOSE x \in Own : \A y \in Own : x <= y IN
+               /\ e.n3 = k - 1
+               /\ e.b = (Area2(S[k]) < 0)
+               /\ e.flag = e.b
+    \* Point64 -> PointD by 2^-n1 and back by 2^n1 is the identity; PointD n/4 -> Point64 rounds to the nearest integer,
+    \* halves away from zero
+    [] e.fn = "PointScale" ->
+          LET RoundQ(n) == IF n >= 0 THEN (n + 2) \div 4 ELSE -((-n + 2) \div 4) IN
+          /\ Len(e.res) = 2 * Len(P)
+          /\ \A i \in 1..Len(P) : /\ e.res[2 * i - 1] = P[i]
+                                   /\ e.res[2 * i] = <<RoundQ(P[i][1]), RoundQ(P[i][2])>>
     \* PolyTree accessors: Count() is the number of children of a node, Clear() empties the tree
     [] e.fn = "PolyTreeAccessors" ->
           /\ Len(e.counts) = Len(e.tree) + 1
